@@ -805,8 +805,9 @@ def lowered_kernel(name, schedule, R, sk):
     return kern, (st.name.lower(), sp.name.lower())
 
 
-def translate_code(scratch, names=None, settings=SETTINGS, variant=None, log=None, chunk_size=23):
-    """-> (table, instances, stats).  instances: {(name, dm, ann, omp): inst or {'rejected': reason}}"""
+def translate_chunk(job):
+    """worker: (chunk, scratch file, settings, variant spec) -> (instances, texts) for the built-ins of the chunk"""
+    chunk, fname, settings, variant_spec = job
     from psyclone.configuration import Config
     from psyclone.parse.algorithm import parse
     from psyclone.psyGen import PSyFactory
@@ -814,70 +815,105 @@ def translate_code(scratch, names=None, settings=SETTINGS, variant=None, log=Non
     from psyclone.transformations import DynamoOMPParallelLoopTrans
     from psyclone.errors import GenerationError
     from psyclone.psyir.transformations import TransformationError
-    table = builtin_table()
-    todo = [(i, n, a) for i, (n, _, a) in enumerate(table) if names is None or n in names]
-    scratch = Path(scratch)
-    scratch.mkdir(parents=True, exist_ok=True)
-    chunks = [todo[i:i + chunk_size] for i in range(0, len(todo), chunk_size)]
-    parsed = []
-    for c, chunk in enumerate(chunks):
-        src, actual = algorithm_source(chunk, variant)
-        f = scratch / ("c20_alg_%d.f90" % c)
-        f.write_text(src)
-        _, info = parse(str(f), api=API)
-        parsed.append((chunk, actual, info))
+    variant = make_variant(variant_spec)
+    src, actual = algorithm_source(chunk, variant)
+    Path(fname).write_text(src)
+    _, info = parse(str(fname), api=API)
     conf = Config.get().api_conf("lfric")
     saved = conf._compute_annexed_dofs
     instances, psy_texts = {}, {}
     try:
         for dm, ann, omp in settings:
             conf._compute_annexed_dofs = ann
-            for chunk, actual, info in parsed:
-                psy = PSyFactory(API, distributed_memory=dm).create(info)
-                invs = {inv.name.lower(): inv for inv in psy.invokes.invoke_list}
-                rejected = {}
-                if omp:
-                    for _, name, _ in chunk:
-                        inv = invs["invoke_bi_" + name.lower()]
-                        loops = inv.schedule.walk(Loop)
-                        if len(loops) != 1:
-                            raise TranslateError("code: %s: %d loops before transformation" % (name, len(loops)))
-                        try:
-                            DynamoOMPParallelLoopTrans().apply(loops[0])
-                        except TransformationError as err:
-                            rejected[name] = str(err.value)[:200]
-                try:
-                    text = str(psy.gen)
-                except GenerationError as err:
-                    raise TranslateError("code: PSy-layer generation failed (%s): %s" % (setting_tag(dm, ann, omp), err))
-                subs = split_subroutines(text)
-                psy_texts[(dm, ann, omp, chunk[0][0])] = text
-                for _, name, args in chunk:
-                    key = (name, dm, ann, omp)
-                    if name in rejected:
-                        instances[key] = {"rejected": rejected[name]}
-                        continue
-                    sub = subs.get("invoke_bi_" + name.lower())
-                    if sub is None:
-                        raise TranslateError("code: no generated subroutine for %s" % name)
-                    sk = parse_invoke_text(name, sub, actual[name], args)
-                    inst = build_instance(name, sk, actual[name], args, dm, ann, omp)
-                    if omp and inst["omp"] is None:
-                        raise TranslateError("code: %s: OpenMP transformation applied but no directive generated" % name)
-                    # route 2: lowered PSyIR must serialise to the same kernel and the same bound variables
-                    R = Resolver(name, sk, actual[name], args)
-                    kern2, bvars = lowered_kernel(name, invs["invoke_bi_" + name.lower()].schedule, R, sk)
-                    if kern2 != inst["kern"]:
-                        raise TranslateError("code: %s (%s): lowered PSyIR %r differs from the generated text %r"
-                                             % (name, setting_tag(dm, ann, omp), kern2, inst["kern"]))
-                    if sorted(bvars) != sorted(sk["bounds"]):
-                        raise TranslateError("code: %s: lowered loop uses bounds %s, text assigns %s" % (name, bvars, sorted(sk["bounds"])))
-                    inst["actual"] = actual[name]
-                    instances[key] = inst
-            if log:
-                log("translated setting %s" % setting_tag(dm, ann, omp))
+            psy = PSyFactory(API, distributed_memory=dm).create(info)
+            invs = {inv.name.lower(): inv for inv in psy.invokes.invoke_list}
+            rejected = {}
+            if omp:
+                for _, name, _ in chunk:
+                    inv = invs["invoke_bi_" + name.lower()]
+                    loops = inv.schedule.walk(Loop)
+                    if len(loops) != 1:
+                        raise TranslateError("code: %s: %d loops before transformation" % (name, len(loops)))
+                    try:
+                        DynamoOMPParallelLoopTrans().apply(loops[0])
+                    except TransformationError as err:
+                        rejected[name] = str(err.value)[:200]
+            try:
+                text = str(psy.gen)
+            except GenerationError as err:
+                raise TranslateError("code: PSy-layer generation failed (%s): %s" % (setting_tag(dm, ann, omp), err))
+            subs = split_subroutines(text)
+            psy_texts[(dm, ann, omp, chunk[0][0])] = text
+            for _, name, args in chunk:
+                key = (name, dm, ann, omp)
+                if name in rejected:
+                    instances[key] = {"rejected": rejected[name]}
+                    continue
+                sub = subs.get("invoke_bi_" + name.lower())
+                if sub is None:
+                    raise TranslateError("code: no generated subroutine for %s" % name)
+                sk = parse_invoke_text(name, sub, actual[name], args)
+                inst = build_instance(name, sk, actual[name], args, dm, ann, omp)
+                if omp and inst["omp"] is None:
+                    raise TranslateError("code: %s: OpenMP transformation applied but no directive generated" % name)
+                # route 2: lowered PSyIR must serialise to the same kernel and the same bound variables
+                R = Resolver(name, sk, actual[name], args)
+                kern2, bvars = lowered_kernel(name, invs["invoke_bi_" + name.lower()].schedule, R, sk)
+                if kern2 != inst["kern"]:
+                    raise TranslateError("code: %s (%s): lowered PSyIR %r differs from the generated text %r"
+                                         % (name, setting_tag(dm, ann, omp), kern2, inst["kern"]))
+                if sorted(bvars) != sorted(sk["bounds"]):
+                    raise TranslateError("code: %s: lowered loop uses bounds %s, text assigns %s" % (name, bvars, sorted(sk["bounds"])))
+                inst["actual"] = actual[name]
+                instances[key] = inst
     finally:
         conf._compute_annexed_dofs = saved
+    return instances, psy_texts
+
+
+def make_variant(spec):
+    """spec None or ('mixed', shift): real fields of the other supported precisions"""
+    if spec is None:
+        return None
+    shift = spec[1]
+
+    def variant(name, k):
+        v = REAL_FIELD_VARIANTS[(sum(ord(c) * (i + 1) for i, c in enumerate(name)) + 3 * k + shift) % len(REAL_FIELD_VARIANTS)]
+        return v[0], v[1]
+    return variant
+
+
+def _worker(job):
+    try:
+        return ("ok", translate_chunk(job))
+    except (TranslateError, ParseError) as err:
+        return ("err", "%s: %s" % (type(err).__name__, err))
+
+
+def translate_code(scratch, names=None, settings=SETTINGS, variant=None, log=None, nproc=None):
+    """-> (table, instances, psy_texts).  instances: {(name, dm, ann, omp): inst or {'rejected': reason}}.
+    The built-ins are distributed over worker processes (PSyclone re-parses lfric_builtins_mod.f90
+    for every built-in call of an algorithm file, which dominates the run time)."""
+    import multiprocessing
+    table = builtin_table()
+    todo = [(i, n, a) for i, (n, _, a) in enumerate(table) if names is None or n in names]
+    scratch = Path(scratch)
+    scratch.mkdir(parents=True, exist_ok=True)
+    nproc = nproc or max(1, min(6, (os.cpu_count() or 2) // 2))
+    size = max(1, -(-len(todo) // nproc))
+    jobs = [(todo[i:i + size], str(scratch / ("c20_alg_%d.f90" % (i // size))), list(settings), variant)
+            for i in range(0, len(todo), size)]
+    if len(jobs) == 1:
+        results = [_worker(jobs[0])]
+    else:
+        with multiprocessing.get_context("fork").Pool(len(jobs)) as pool:
+            results = pool.map(_worker, jobs)
+    instances, psy_texts = {}, {}
+    for status, payload in results:
+        if status == "err":
+            raise TranslateError(payload)
+        instances.update(payload[0])
+        psy_texts.update(payload[1])
     return table, instances, psy_texts
 
 
